@@ -73,6 +73,8 @@ def scenario_keys(ctx):
     add("run", bp="none", key="none", cmd="write", excl_setting=True)
     add("run", bp="none", key="none", cmd="write")
     add("run", bp="arg", key="signer", cmd="write")
+    add("run", bp="none", key="signer", cmd="write", md="taken")
+    add("run", bp="none", key="signer", cmd="write", md="taken", dsse=True)
     add("run", bp="setting", key="signer", cmd="write", md="ok")
     add("run", bp="arg", key="signer", cmd="streams", streams=True)
     add("run", bp="none", key="none", cmd="streams", streams=True)
@@ -227,8 +229,18 @@ class Runner:
         else:
             os.environ["TMPDIR"] = self.saved_env
 
-    def execute(self, scen, k):
-        """one observed library call; k = 0: no injection. Returns a result dict."""
+    @staticmethod
+    def _entries(wd):
+        out = set()
+        for base, dirs, files in os.walk(wd):
+            for nm in dirs + files:
+                out.add(os.path.relpath(os.path.join(base, nm), wd))
+        return out
+
+    def execute(self, scen, k, allowed=None):
+        """one observed library call; k = 0: no injection. Returns a result dict.
+        [allowed]: the entries a run of this scenario may add to its working directories (those a complete run adds):
+        anything else a failing run leaves behind is a file it created on the way and did not remove."""
         self.n += 1
         wd = os.path.join(self.ctx.work, "w%d" % self.n)
         os.makedirs(wd)
@@ -245,6 +257,7 @@ class Runner:
             for nme, val in case.settings.items():
                 setattr(S, nme, val)
             before = L.snapshot(self.tmpdir)
+            entries_before = self._entries(wd)
             inj = L.Injector(fail_at=k or None, abort=bool(scen.params.get("abort")))
             exc = None
             sink = io.StringIO()
@@ -259,8 +272,11 @@ class Runner:
                 finally:
                     inj.active = False
             after = L.snapshot(self.tmpdir)
+            new_entries = sorted(self._entries(wd) - entries_before)
             self.evaluations += 1
             leaks = L.diff(before, after)
+            if allowed is not None and exc is not None:
+                leaks += [("workfile:" + e, "absent", "present") for e in new_entries if e not in allowed]
             excused = []
             if inj.fired:
                 _, opname, arg = inj.fired
@@ -278,7 +294,7 @@ class Runner:
                 "exception_text": rel(str(exc))[:200] if exc is not None else None,
                 "leaks": [(r, rel(b), rel(a)) for (r, b, a) in leaks],
                 "excused": [(r, rel(b), rel(a)) for (r, b, a) in excused],
-                "extra": L.diff_extra(before, after),
+                "extra": L.diff_extra(before, after), "new_entries": new_entries,
                 "before": _view(before, rel), "after": _view(after, rel),
             })
             return res
@@ -318,6 +334,8 @@ def what_string(scen, r):
             parts.append("in_toto.%s left as %s (was %s)" % (res, a, b))
         elif res.startswith("tmp:"):
             parts.append("temporary file %s left behind" % res[4:])
+        elif res.startswith("workfile:"):
+            parts.append("file %s, which a complete run of the same call does not leave there, left behind in the working / metadata directory" % res[9:])
         else:
             parts.append("%s: %s -> %s" % (res, b, a))
     return "%s: %s; %s; call %s [scenario %s seed %d]" % (
@@ -443,8 +461,20 @@ def run(ctx):
                    "baseline": r0["exception"] or "returned", "raised_under_injection": 0, "excused": 0}
             if r0["describe"]:
                 row["describe"] = r0["describe"]
+            # what a complete run adds to its directories; for a scenario that fails by itself: what its twin without the
+            # obstacle adds (the obstacle must not make the call leave MORE behind)
+            allowed = None
+            if not r0["exception"]:
+                allowed = set(r0["new_entries"])
+            elif scen.params.get("md") == "taken":
+                twin = L.build(dict(key, params=dict(scen.params, md="ok")))
+                rt = runner.execute(twin, 0)
+                if not rt["exception"]:
+                    allowed = set(rt["new_entries"])
+                    r0b = runner.execute(scen, 0, allowed=allowed)
+                    account(scen, r0b)
             for k in range(1, r0["ops"] + 1):
-                r = runner.execute(scen, k)
+                r = runner.execute(scen, k, allowed=allowed)
                 account(scen, r)
                 if r["fired"] and r["fired"][1] != r0["log"][k - 1][1]:
                     anomalies["op_sequence_differs_from_counting_run"] += 1
@@ -531,7 +561,11 @@ def replay(ctx, obj):
     runner = Runner(ctx)
     try:
         scen = L.build(r["scenario"])
-        res = runner.execute(scen, int(r.get("k") or 0))
+        # what a complete run (of the scenario, or of its twin without the obstacle) adds to its directories
+        base = scen if scen.params.get("md") != "taken" else L.build(dict(r["scenario"], params=dict(scen.params, md="ok")))
+        r0 = runner.execute(base, 0)
+        allowed = set(r0["new_entries"]) if not r0["exception"] else None
+        res = runner.execute(scen, int(r.get("k") or 0), allowed=allowed)
     finally:
         runner.close()
     print("function :", res["function"], " scenario:", scen.label(), "seed", scen.seed)
